@@ -11,11 +11,17 @@ OUT=${TRIAL_OUT:-$D/trial.json}
 cd $WT
 if ! git apply $D/patch.diff 2>/dev/null; then echo "{\"name\":\"$N\",\"applies\":false}" > $OUT; cat $OUT; git -C /repo worktree remove --force $WT; exit 3; fi
 go build ./... >/dev/null 2>&1 || { echo "{\"name\":\"$N\",\"applies\":true,\"builds\":false}" > $OUT; cat $OUT; git -C /repo worktree remove --force $WT; exit 4; }
-SUITE=true; timeout 900 go test -vet=off -count=1 -timeout 400s ./... >/tmp/trial_suite_$N.log 2>&1 || SUITE=false
-if [ $SUITE = false ] && grep -q "TestSaveLoadCache" /tmp/trial_suite_$N.log; then
-  # known pre-existing flake (hang in TestSaveLoadCache/ok): retry once
-  SUITE=true; timeout 900 go test -vet=off -count=1 -timeout 400s ./... >/tmp/trial_suite_$N.log 2>&1 || SUITE=false
-fi
+# the suite, up to three attempts: the unmodified tree has three timing-dependent tests that fail now and then
+#   TestSaveLoadCache/ok (hang in fakeSource.Sleep), TestCache_Scheduler/rescheduleDrainBuffers (the test blocks inside
+#   OnAtomicDeletion while holding the bucket lock its own next Set needs when keys 1 and 2 share a bucket),
+#   TestCache_GetWithSuppressedLoad (asserts exactly one load although its own comment allows more)
+SUITE=false; FLAKES=""
+for attempt in 1 2 3; do
+  if timeout 900 go test -vet=off -count=1 -timeout 400s ./... >/tmp/trial_suite_$N.log 2>&1; then SUITE=true; break; fi
+  bad=$(grep -o "^--- FAIL: [A-Za-z_]*\|running tests:\|Test[A-Za-z_]*/[A-Za-z_]* ([0-9]*m" /tmp/trial_suite_$N.log | tr '\n' ' ')
+  FLAKES="$FLAKES attempt$attempt: $bad;"
+  grep -q "TestSaveLoadCache\|rescheduleDrainBuffers\|TestCache_GetWithSuppressedLoad" /tmp/trial_suite_$N.log || break
+done
 cp -r $D $WT/$(basename $D) 2>/dev/null
 bash $D/demo.sh >/tmp/trial_demo_$N.log 2>&1 && DW=false || DW=true
 # checks against the patched worktree, from a scratch copy of /verif
@@ -31,6 +37,6 @@ done
 git checkout -q -- . ; git clean -fdq >/dev/null 2>&1
 cp -r $D $WT/$(basename $D) 2>/dev/null
 bash $D/demo.sh >/tmp/trial_demo2_$N.log 2>&1 && DO=true || DO=false
-echo "{\"name\":\"$N\",\"applies\":true,\"builds\":true,\"suite_pass\":$SUITE,\"demo_fails_with\":$DW,\"demo_passes_without\":$DO,\"head\":\"$(git -C /repo rev-parse --short HEAD)\",\"verif\":\"$(git -C /verif rev-parse --short HEAD)\",\"checks\":{${RES%,}}}" > $OUT
+echo "{\"name\":\"$N\",\"applies\":true,\"builds\":true,\"suite_pass\":$SUITE,\"suite_flakes\":\"$FLAKES\",\"demo_fails_with\":$DW,\"demo_passes_without\":$DO,\"head\":\"$(git -C /repo rev-parse --short HEAD)\",\"verif\":\"$(git -C /verif rev-parse --short HEAD)\",\"checks\":{${RES%,}}}" > $OUT
 cat $OUT
 cd /; git -C /repo worktree remove --force $WT; rm -rf $VT
